@@ -449,6 +449,14 @@ def odd_cases():
                      ('RunningOrderReplace', B.ro_replace([B.story('X', [crp()])]))]:
         case(cls, 'payload with U+000D', msg)
         out[-1]['msg_text'] = TJ.to_text(msg).replace(CR, '&#13;')
+    # ... and carriage returns in the RUNNING ORDER (its text says &#13;): a failing message must leave them alone
+    cr_ro = B.ro_doc([B.story('A', [B.item('I1'), B.p('line one' + CR + 'line two'), B.item('I2')]), st('B')], slug='slug' + CR + 'x')
+    for cls, msg in [('StoryMove', B.story_move(['ZZ', 'A'])), ('ItemMoveMultiple', B.item_move_multiple('A', ['I1', 'ZZ', 'I2'])),
+                     ('StoryReplace', B.story_replace('ZZ', [X])), ('EAStorySwap', B.ea('SWAP', ABSENT, [B.ids('storyID', ['A', 'ZZ'])])),
+                     ('ItemReplace', B.item_replace('A', 'ZZ', [new_item('N')])), ('StoryDelete', B.story_delete(['B'])),
+                     ('ItemDelete', B.item_delete('A', ['I2'])), ('MetaDataReplace', B.metadata_replace([E('roTrigger', text='t')]))]:
+        case(cls, 'running order with U+000D', msg, cr_ro)
+        out[-1]['ro_text'] = TJ.to_text(cr_ro).replace(CR, '&#13;')
     # messages addressed to ANOTHER running order (different roID): the merge methods do not look at it
     for cls, msg in [('RunningOrderEnd', B.ro_delete(ro_id='OTHER')), ('StoryAppend', B.story_append([X], ro_id='OTHER')),
                      ('StoryDelete', B.story_delete(['B'], ro_id='OTHER')), ('ReadyToAir', B.ready_to_air(ro_id='OTHER')),
